@@ -450,6 +450,46 @@ pub fn build_graph(spec: &str) -> Graph {
     Graph { state, root: root.expect("graph needs a root instance"), warps, parents }
 }
 
+fn n64(id: &[u8; 32]) -> u64 {
+    u64::from_be_bytes([id[24], id[25], id[26], id[27], id[28], id[29], id[30], id[31]])
+}
+
+/// `<n|e><a|b><warp>.<id>` for an attachment key
+pub fn att_key_s(k: &AttachmentKey) -> String {
+    let (o, w, id) = match k.owner {
+        AttachmentOwner::Node(n) => ("n", n.warp_id.0, n.local_id.0),
+        AttachmentOwner::Edge(e) => ("e", e.warp_id.0, e.local_id.0),
+    };
+    let p = if k.plane == AttachmentPlane::Alpha { "a" } else { "b" };
+    format!("{o}{p}{}.{}", n64(&w), n64(&id))
+}
+
+fn att_val_s(v: &Option<AttachmentValue>) -> String {
+    match v {
+        None => "-".into(),
+        Some(AttachmentValue::Atom(a)) => format!("atom_{}_{}", n64(&a.type_id.0), tohex(a.bytes.as_ref())),
+        Some(AttachmentValue::Descend(w)) => format!("descend_{}", n64(&w.0)),
+    }
+}
+
+/// Full rendering of ops (content included) for the Patch model: `UN.w.n.ty` `DN.w.n` `UE.w.e.from.to.ty`
+/// `DE.w.from.e` `SA.<key>.<atom_ty_hex|descend_w|->` `UW.w.root` `DW.w` `OP.<key>.cw.cr.<ty|->`, joined by `+`.
+pub fn render_ops(ops: &[WarpOp]) -> String {
+    ops.iter()
+        .map(|op| match op {
+            WarpOp::UpsertNode { node, record } => format!("UN.{}.{}.{}", n64(&node.warp_id.0), n64(&node.local_id.0), n64(&record.ty.0)),
+            WarpOp::DeleteNode { node } => format!("DN.{}.{}", n64(&node.warp_id.0), n64(&node.local_id.0)),
+            WarpOp::UpsertEdge { warp_id, record } => format!("UE.{}.{}.{}.{}.{}", n64(&warp_id.0), n64(&record.id.0), n64(&record.from.0), n64(&record.to.0), n64(&record.ty.0)),
+            WarpOp::DeleteEdge { warp_id, from, edge_id } => format!("DE.{}.{}.{}", n64(&warp_id.0), n64(&from.0), n64(&edge_id.0)),
+            WarpOp::SetAttachment { key, value } => format!("SA.{}.{}", att_key_s(key).replace('.', "_"), att_val_s(value)),
+            WarpOp::UpsertWarpInstance { instance } => format!("UW.{}.{}", n64(&instance.warp_id.0), n64(&instance.root_node.0)),
+            WarpOp::DeleteWarpInstance { warp_id } => format!("DW.{}", n64(&warp_id.0)),
+            WarpOp::OpenPortal { key, child_warp, child_root, .. } => format!("OP.{}.{}.{}", att_key_s(key).replace('.', "_"), n64(&child_warp.0), n64(&child_root.0)),
+        })
+        .collect::<Vec<_>>()
+        .join("+")
+}
+
 /// Canonical dump of a state (sorted, hex) through public accessors.
 pub fn dump_state(state: &WarpState, warps: &[u64]) -> String {
     let mut out = String::new();
@@ -462,7 +502,7 @@ pub fn dump_state(state: &WarpState, warps: &[u64]) -> String {
         };
         let inst = state.instance(&wid(w));
         out.push_str(&format!("W{w}:root={}:parent={}|", inst.map(|i| hex::encode(&i.root_node.0[24..])).unwrap_or_default(),
-            inst.and_then(|i| i.parent).map(|p| format!("{p:?}").len().to_string()).unwrap_or_else(|| "-".into())));
+            inst.and_then(|i| i.parent).map(|p| att_key_s(&p)).unwrap_or_else(|| "-".into())));
         let mut nodes: Vec<_> = store.iter_nodes().map(|(id, r)| (id.0, r.ty.0)).collect();
         nodes.sort();
         for (id, ty) in nodes {
